@@ -826,7 +826,14 @@ def run_case(case, ctx):
                 ctx.count("query_outside_extent")
                 continue
             mech = qclasses(p)
-            r = M.call(si.request, ENUCoords(p[0], p[1]))
+            via_nbh0 = (int(p[0] * 8) + int(p[1] * 8) + len(case["queries"])) % 3 == 0
+            if via_nbh0:
+                # the same question through the other documented front end: neighborhood(coord) with its default
+                # unit 0 is "everything registered in the cell containing the point"
+                r = M.call(si.neighborhood, ENUCoords(p[0], p[1]))
+                ctx.count("point_query_through_neighborhood_with_default_unit")
+            else:
+                r = M.call(si.request, ENUCoords(p[0], p[1]))
             ctx.monitor("request_point.no_false_negative")
             if M.is_raised(r):
                 return fail("request(coord) raised for a point inside the extent", q, {"raised": r}, mech)
@@ -933,7 +940,7 @@ def run_case(case, ctx):
             raise M.HarnessError("unknown query kind %r" % (kind,))
         # aliasing: the list a query handed back belongs to the caller, who prunes it, tags it, empties it (request(i, j),
         # the cell accessor used above, is not treated this way: it documents nothing about the list it returns)
-        if isinstance(r, list) and kind in ("nbh", "seg", "trk"):
+        if isinstance(r, list) and (kind in ("nbh", "seg", "trk") or (kind == "pt" and via_nbh0)):
             M.scribble(r)
             ctx.count("returned_list_modified_by_the_caller")
 
@@ -956,7 +963,8 @@ def classify(case, witness):
 # floors for the call-history workloads added in session 3 (a run in which they were silently skipped is inconclusive)
 _floors_base = floors
 _FLOORS_EXTRA = {'classes': {'profile_dense': 20},
-                 'counters': {'edge_identifiers:int_1_to_N': 100, 'edge_identifiers:digit_strings': 50,
+                 'counters': {'edge_identifiers:int_1_to_N': 100, 'point_query_through_neighborhood_with_default_unit': 5000,
+                              'returned_list_modified_by_the_caller': 20000, 'edge_identifiers:digit_strings': 50,
                               'network_staged_build:index': 50, 'network_staged_build:bbox': 20,
                               'network_staged_build:incremental': 30}}
 
